@@ -18,7 +18,7 @@ RULE = ('unique-label cut molecules (atomistic last level) and cut coarse graphs
 ASSUMPTIONS = ['documentation example strings are included verbatim (block copolymer, mPEG two- vs three-level)']
 MECHANISMS = [('cgsmiles.resolve', 'MoleculeResolver.resolve'), ('cgsmiles.resolve', 'MoleculeResolver.resolve_iter'),
               ('cgsmiles.resolve', 'MoleculeResolver.resolve_all'), ('cgsmiles.cgsmiles_utils', 'read_fragment_cgsmiles')]
-SIZES = {'quick': 1600, 'thorough': 40000}
+SIZES = {'quick': 2000, 'thorough': 40000}
 DOC_CASES = [
     ("{[#B1][#B2][#B1]}.{#B1=[#PEO]|4,#B2=[#PE]|2}.{#PEO=[>]COC[<],#PE=[>]CC[<]}", None),
 ]
